@@ -21,6 +21,8 @@ AP_K1_SMALL = {"k": 1, "maxtok": 2, "tokmask": 3, "shapemask": ALLSHAPES, "nvals
 AP_K2_FLAT = {"k": 2, "maxtok": 1, "tokmask": 1, "shapemask": 34, "nvals": 2, "kmask0": 63, "kmask1": 63}
 # op0 edits strictly inside a container value (2 tokens), op1 copies/moves/tests with one token
 AP_K2_INNER = {"k": 2, "maxtok": 2, "mintok0": 2, "maxtok1": 1, "tokmask": 1, "shapemask": 2328, "nvals": 2, "kmask0": 7, "kmask1": 56}
+# op0 copies/moves a container (one token), op1 edits strictly inside the source or the duplicate (aliasing)
+AP_K2_COPYEDIT = {"k": 2, "maxtok": 2, "maxtok0": 1, "mintok1": 2, "tokmask": 1, "shapemask": 2328, "nvals": 2, "kmask0": 24, "kmask1": 7}
 AP_K1_T3 = {"k": 1, "maxtok": 3, "tokmask": 15, "shapemask": ALLSHAPES, "nvals": 8, "kmask0": 63}
 AP_K2_DEEP = {"k": 2, "maxtok": 2, "tokmask": 1, "shapemask": 315, "nvals": 2, "kmask0": 63, "kmask1": 63}
 AP_K2_INNER_ALL = {"k": 2, "maxtok": 2, "mintok0": 2, "tokmask": 1, "shapemask": 2328, "nvals": 4, "kmask0": 63, "kmask1": 63}
@@ -29,7 +31,7 @@ AP_BOUND = ("13 document shapes (<= 6 nodes, depth <= 3, object and array roots,
             "K operations (kmask selects the kinds per position), pointers of mintok..maxtok tokens; each token 1-3 symbolic bytes "
             "(any printable ASCII except quote, backslash, slash, tilde) or the fixed spellings a~0b / c~1d; 8 value shapes with symbolic leaves; SupportNegativeIndices symbolic")
 def apply_harnesses(extra_quick=(), extra_thorough=()):
-    q = [AP_K1, AP_K2_FLAT, AP_K2_INNER] + list(extra_quick)
+    q = [AP_K1, AP_K2_FLAT, AP_K2_INNER, AP_K2_COPYEDIT] + list(extra_quick)
     t = [AP_K1_T3, AP_K2_DEEP, AP_K2_INNER_ALL, AP_K3] + list(extra_thorough)
     return [
         H("H_Apply", q, t, ["apply/end", "apply/ref-fails", "apply/ref-succeeds"], AP_BOUND),
@@ -44,6 +46,14 @@ AP_ANCHORS = ["v5.findObject", "(*github.com/evanphx/json-patch/v5.partialArray)
               "(github.com/evanphx/json-patch/v5.Patch).add", "(github.com/evanphx/json-patch/v5.Patch).remove", "(github.com/evanphx/json-patch/v5.Patch).replace", "v5.deepCopy"]
 AP_OUTSIDE = ["more than K operations", "documents outside the 13 listed shapes", "tokens longer than the listed byte counts, non-ASCII names"]
 
+# ---- legacy root package (staged copy of /repo/*.go built as module github.com/evanphx/json-patch)
+L_K1 = {"k": 1, "kmask0": 63, "maxtok": 2, "tokmask": 3, "shapemask": 8191, "nvals": 8}
+L_K1_Q = {"k": 1, "kmask0": 63, "maxtok": 2, "tokmask": 1, "shapemask": 8191, "nvals": 8}
+L_K2_FLAT = {"k": 2, "kmask0": 63, "kmask1": 63, "maxtok": 1, "tokmask": 1, "shapemask": 34, "nvals": 2}
+L_K2_INNER = {"k": 2, "maxtok": 2, "mintok0": 2, "maxtok1": 1, "tokmask": 1, "shapemask": 2328, "nvals": 2, "kmask0": 7, "kmask1": 56}
+L_K2_COPYEDIT = {"k": 2, "maxtok": 2, "maxtok0": 1, "mintok1": 2, "tokmask": 1, "shapemask": 2328, "nvals": 2, "kmask0": 16, "kmask1": 7}
+L_LIMIT = {"k": 2, "kmask0": 16, "kmask1": 16, "maxtok": 1, "tokmask": 1, "shapemask": 40960, "nvals": 2, "limit": 1}
+L_LIMIT1 = {"k": 1, "kmask0": 16, "maxtok": 2, "tokmask": 1, "shapemask": 57344, "nvals": 2, "limit": 1}
 MERGE_Q = [{"docm": 2, "docvals": 6, "patchm": 2, "patchvals": 10}]
 MERGE_BOUND = ("documents: objects of <= docm members a,b with values from W (number, string, {k:n}, {k:{j:n}}, [n], null) plus array/number/string roots; "
                "patches: objects of <= patchm members named by one symbolic letter a..d with values from V (null, number, string, {}, {k:null}, {k:n}, {k:{j:null}}, [], [null], [{k:null}]) "
@@ -81,14 +91,20 @@ R["C04"] = {"harnesses": [
     H("H_Bytes_Decode", ns(0, 4), ns(0, 6), ["bytes/decode/malformed", "bytes/decode/wellformed"],
       "DecodePatch on every byte string of n bytes, then the four Operation accessors, Apply and ApplyIndent on whatever was accepted"),
     H("H_Bytes_ApplyDoc", ns(0, 3), ns(0, 5), ["bytes/applydoc/malformed", "bytes/applydoc/wellformed"],
-      "Apply / ApplyIndent of 8 companion patches (incl. root replaced by null followed by add, test without value, copy from root) to every document of n bytes"),
+      "Apply / ApplyIndent of 10 companion patches (incl. root replaced by null followed by add, test without value, copy from root) to every document of n bytes"),
     H("H_Bytes_ApplyOpts", ns(0, 3), ns(0, 5), ["bytes/applyopts/end"],
-      "ApplyIndentWithOptions with all five options symbolic (limit: any int64), 8 companion patches, every document of n bytes"),
+      "ApplyIndentWithOptions with all five options symbolic (limit: any int64), 10 companion patches, every document of n bytes"),
     H("H_Apply", [AP_K1_SMALL, dict(AP_K2_FLAT, shapemask=98)], [AP_K1, AP_K2_DEEP], ["apply/end"], "the C01 family (well-formed but awkward: null members/elements, root-replacing operations followed by another operation)"),
     H("H_Equal", EQ_Q, None, ["equal/true"], "the C06 family"),
     H("H_Merge", [{"docm": 1, "docvals": 6, "patchm": 2, "patchvals": 10}], None, ["merge/end"], "the C02 family"),
     H("H_MergeMerge", [{"docm": 1, "docvals": 2, "patchm": 1, "patchvals": 10, "nonobjdocs": 1}], None, ["mm/end"], "the C07 family"),
-    H("H_CreateReject", [{}], None, ["createreject/rejected"], "49 root-kind pairs")],
+    H("H_CreateReject", [{}], None, ["createreject/rejected"], "49 root-kind pairs"),
+    H("H_Bytes_Equal", ns(0, 3, m=-1) + [{"n": 2, "m": 2}], ns(0, 5, m=-1) + [{"n": 2, "m": 2}, {"n": 3, "m": 3}], ["bytes/equal/malformed", "bytes/equal/wellformed"], "legacy root package: Equal on every byte string of n bytes", target="legacy"),
+    H("H_Bytes_Merge", ns(0, 3), ns(0, 5), ["bytes/merge/malformed", "bytes/merge/wellformed"], "legacy root package: MergePatch / MergeMergePatches / CreateMergePatch with one argument = every byte string of n bytes", target="legacy"),
+    H("H_Bytes_Decode", ns(0, 4), ns(0, 5), ["bytes/decode/malformed", "bytes/decode/wellformed"], "legacy root package: DecodePatch + accessors + Apply/ApplyIndent on every byte string of n bytes", target="legacy"),
+    H("H_Bytes_ApplyDoc", ns(0, 3), ns(0, 5), ["bytes/applydoc/malformed", "bytes/applydoc/wellformed"], "legacy root package: Apply / ApplyIndent of 10 companion patches to every document of n bytes", target="legacy"),
+    H("H_Legacy_Apply", [L_K1_Q], [L_K1, L_K2_FLAT], ["legacy/end"], "legacy root package: the C18 family under the panic assertion", target="legacy"),
+    H("H_Equal", [{"nshapes": 20, "modes": 15, "containers": 0}], None, ["equal/true"], "legacy root package: the C06 family incl. null roots and nulls inside arrays", target="legacy")],
     "anchors": ["v5.Equal", "v5.CreateMergePatch", "v5.DecodePatch", "v5.doMergePatch", "(github.com/evanphx/json-patch/v5.Patch).ApplyIndentWithOptions", "v5.validateOperation", "(*github.com/evanphx/json-patch/v5.lazyNode).equal"],
     "assumptions": ["non-nil options; Patch values come from DecodePatch"],
     "outside_bound": ["byte strings longer than the listed n", "deep nesting (recursion depth of equal/merge is not explored; the scanner's own depth limit is covered under C16)",
@@ -196,14 +212,6 @@ R["C15"] = {"harnesses": [
                     "Apply on the empty document: open known finding KF-empty-doc"],
     "outside_bound": ["strings of more than 2 atoms", "invalid UTF-8 input (the property is stated for UTF-8 input)"]}
 
-# ---- legacy root package (staged copy of /repo/*.go built as module github.com/evanphx/json-patch)
-L_K1 = {"k": 1, "kmask0": 63, "maxtok": 2, "tokmask": 3, "shapemask": 8191, "nvals": 8}
-L_K1_Q = {"k": 1, "kmask0": 63, "maxtok": 2, "tokmask": 1, "shapemask": 8191, "nvals": 8}
-L_K2_FLAT = {"k": 2, "kmask0": 63, "kmask1": 63, "maxtok": 1, "tokmask": 1, "shapemask": 34, "nvals": 2}
-L_K2_INNER = {"k": 2, "maxtok": 2, "mintok0": 2, "maxtok1": 1, "tokmask": 1, "shapemask": 2328, "nvals": 2, "kmask0": 7, "kmask1": 56}
-L_K2_COPYEDIT = {"k": 2, "maxtok": 2, "maxtok0": 1, "mintok1": 2, "tokmask": 1, "shapemask": 2328, "nvals": 2, "kmask0": 16, "kmask1": 7}
-L_LIMIT = {"k": 2, "kmask0": 16, "kmask1": 16, "maxtok": 1, "tokmask": 1, "shapemask": 40960, "nvals": 2, "limit": 1}
-L_LIMIT1 = {"k": 1, "kmask0": 16, "maxtok": 2, "tokmask": 1, "shapemask": 57344, "nvals": 2, "limit": 1}
 R["C18"] = {"harnesses": [H("H_Legacy_Apply", [L_K1_Q, L_K2_FLAT, L_K2_INNER, L_K2_COPYEDIT, L_LIMIT1], [L_K1, L_K2_FLAT, L_K2_INNER, L_K2_COPYEDIT, L_LIMIT1, L_LIMIT, dict(L_K2_FLAT, shapemask=315, maxtok=2)],
     ["legacy/end", "legacy/ref-fails"], AP_BOUND.replace("SupportNegativeIndices symbolic", "package variable SupportNegativeIndices on/off; optionally package variable AccumulatedCopySizeLimit = any int64") + "; pointers have at least one token (v4 offers no root-replacing add and no copy from the root)", target="legacy")],
     "anchors": ["json-patch.findObject", "(github.com/evanphx/json-patch.Patch).copy", "(github.com/evanphx/json-patch.Patch).move", "(github.com/evanphx/json-patch.Patch).test", "(github.com/evanphx/json-patch.Patch).add", "(github.com/evanphx/json-patch.Patch).remove", "(github.com/evanphx/json-patch.Patch).replace", "json-patch.deepCopy", "(*github.com/evanphx/json-patch.lazyNode).equal"],
